@@ -9,6 +9,8 @@
    A NESTED case ("sub":{"on":true,"c":{..}}: ... FROM <filter> <clauses> WHERE account IN (SELECT account FROM <sub.c.filter>
    <sub.c's clauses>)) is judged by ScopeOK against the rows of the recorded unfiltered cases of the statement's clauses
    and of the subquery's clauses on the same ledger (each of them judged by the declarative clauses in its own line).
+   A case carries the ENTRY POINT it was given through ("door":{"ep":"api"|"shell"|"run","q":date of the query directive}):
+   it is judged as the report of the clauses it PRESENTS there (Presented) -- the clauses written, through every door.
    One TLC step per line; a rejected line is reported and the run continues. *)
 EXTENDS Summarize, Json, IOUtils
 
@@ -28,7 +30,7 @@ NoLedger == [kt |-> <<>>, lp |-> <<>>, exact |-> TRUE]
 NoBase == [c |-> [open |-> 0, close |-> -1, clear |-> FALSE, filter |-> NoFilter], rows |-> <<>>, ok |-> FALSE]
 
 \* the mechanism's variables are not used here (the real code is the mechanism): parked
-Parked == /\ ledger = <<>> /\ cfg = NoBase.c /\ status = "trace" /\ pc = <<>> /\ entries = <<>> /\ report = <<>>
+Parked == /\ ledger = <<>> /\ cfg = NoBase.c /\ door = ApiDoor /\ node = NoBase.c /\ status = "trace" /\ pc = <<>> /\ entries = <<>> /\ report = <<>>
           /\ inner = NoInner /\ tab = <<>> /\ sub = NoSub
 TInit == Parked /\ l = 1 /\ led = NoLedger /\ base = NoBase /\ bases = <<>> /\ nbad = 0
 
@@ -40,7 +42,7 @@ BaseRows(c) == bases[CHOOSE i \in 1..Len(bases) : SameClauses(bases[i].c, c)].ro
 
 \* names of the clauses a case fails (empty = accepted)
 Failed(e) ==
-    LET c == Cfg(e.c)
+    LET c == Presented(Cfg(e.c), [ep |-> e.door.ep, q |-> e.door.q])
         ci == Cfg(e.sub.c)
         rejected == Rejected(c) \/ (e.sub.on /\ Rejected(ci))
     IN
@@ -53,8 +55,10 @@ Failed(e) ==
     ELSE IF c.filter.n = "none" THEN
         LET res == PeriodReportClauses(led.kt, led.lp, c, RowsIn(e.rows), led.exact)
         IN SelectSeq(ClauseNames, LAMBDA nm : ~res[CHOOSE i \in 1..Len(ClauseNames) : ClauseNames[i] = nm])
-    ELSE IF ~base.ok \/ ~SameClauses(base.c, c) THEN <<"NoBaseCase">>
-    ELSE IF FilterOK(base.rows, c.filter, RowsIn(e.rows)) THEN <<>> ELSE <<"FilterOK">>
+    ELSE IF base.ok /\ SameClauses(base.c, c) THEN
+        (IF FilterOK(base.rows, c.filter, RowsIn(e.rows)) THEN <<>> ELSE <<"FilterOK">>)
+    ELSE IF ~HasBase(c) THEN <<"NoBaseCase">>
+    ELSE IF FilterOK(BaseRows(c), c.filter, RowsIn(e.rows)) THEN <<>> ELSE <<"FilterOK">>
 
 TNext ==
     /\ l <= Len(TraceLog)
@@ -70,7 +74,7 @@ TNext ==
             /\ IF bad = <<>> THEN UNCHANGED nbad
                ELSE /\ PrintT(ToJson([verdict |-> "rejected", line |-> l, id |-> e.id, failed |-> bad]))
                     /\ nbad' = nbad + 1
-            /\ LET isBase == e.err = "" /\ e.c.filter.n = "none" /\ ~e.sub.on /\ ~Rejected(Cfg(e.c)) IN
+            /\ LET isBase == e.err = "" /\ e.c.filter.n = "none" /\ ~e.sub.on /\ ~Rejected(Cfg(e.c)) /\ e.door.ep = "api" IN
                /\ base' = IF isBase THEN [c |-> Cfg(e.c), rows |-> RowsIn(e.rows), ok |-> TRUE] ELSE base
                /\ bases' = IF isBase /\ ~HasBase(Cfg(e.c)) THEN Append(bases, [c |-> Cfg(e.c), rows |-> RowsIn(e.rows)]) ELSE bases
             /\ UNCHANGED led
